@@ -820,7 +820,7 @@ pub fn run(cfg: &RunCfg, which: Which) -> Report {
         else if cfg.use_lean && which == Which::C03 { Some(LeanDriver::spawn("minerledger").expect("lean driver")) }
         else if cfg.use_lean && which == Which::C05 { Some(LeanDriver::spawn("cron").expect("lean driver")) } else { None };
     let mut seen = HashSet::new();
-    let mut seqs: Vec<u64> = match cfg.only_seq { Some(k) => vec![k], None => (0..nseq).collect() };
+    let mut seqs: Vec<u64> = match cfg.only_seq { Some(k) if k >= super::PAYCH_SEQ_BASE => vec![], Some(k) => vec![k], None => (0..nseq).collect() };
     // scripted scenario (C05/C03): sectors left faulty for the whole fault_max_age (42 proving periods)
     if cfg.only_seq.is_none() && which != Which::C01 { seqs.push(LONG_FAULT_SEQ); }
     if cfg.only_seq.is_none() && which == Which::C03 { seqs.push(REWARD_MATURITY_SEQ); seqs.push(REPLICA_UPDATE_SEQ); }
@@ -1063,8 +1063,8 @@ pub fn run(cfg: &RunCfg, which: Which) -> Report {
     let _ = (REWARD_ACTOR_ADDR, BURNT_FUNDS_ACTOR_ADDR);
     // C01 also covers payment-channel solvency ("a payment channel holds at least what it owes the
     // payee"): a voucher/settle/collect campaign on the real paych actor, funds-related oracle kinds only
-    if which == Which::C01 && cfg.only_seq.is_none() {
-        let sub = crate::props::c16::run_as(cfg, "C01", Some(if cfg.thorough() { 1500 } else { 150 }));
+    if which == Which::C01 && sub_wanted(cfg, super::PAYCH_SEQ_BASE) {
+        let sub = with_offset(cfg, super::PAYCH_SEQ_BASE, |c| crate::props::c16::run_as(c, "C01", Some(if c.thorough() { 1500 } else { 150 })));
         rep.ops += sub.ops;
         rep.ops_ok += sub.ops_ok;
         for (k, v) in sub.op_hist.iter() { *rep.op_hist.entry(format!("paych:{}", k)).or_insert(0) += v; }
@@ -1078,8 +1078,8 @@ pub fn run(cfg: &RunCfg, which: Which) -> Report {
     // theorem BA.Market.market_solvent over the market model; this sub-campaign ties that model to the
     // real market actor (every op compared with the Lean driver, burnt total and escrow table included)
     // and checks actor balance = Σ escrow independently after every message
-    if which == Which::C01 && cfg.only_seq.is_none() {
-        let sub = crate::props::market::run_n(cfg, "c06", Some(if cfg.thorough() { 150 } else { 16 }));
+    if which == Which::C01 && sub_wanted(cfg, super::MARKET_SEQ_BASE) {
+        let sub = with_offset(cfg, super::MARKET_SEQ_BASE, |c| crate::props::market::run_n(c, "c01", Some(if c.thorough() { 150 } else { 16 })));
         rep.ops += sub.ops;
         rep.ops_ok += sub.ops_ok;
         rep.notes.push(format!("market sub-campaign: {} sequences, {} ops, {} validated against the Lean market model", sub.sequences, sub.ops, sub.traces_validated));
@@ -1096,8 +1096,8 @@ pub fn run(cfg: &RunCfg, which: Which) -> Report {
     // BA.Reward.reward_pays_le_balance / reward_balance_nonneg over BA.Reward.award; this sub-campaign
     // runs AwardBlockReward on the real actor with its balance placed at the boundaries of the cap,
     // refusing miners and failing burns, against the Lean model and independent oracles
-    if which == Which::C01 && cfg.only_seq.is_none() {
-        let sub = crate::props::reward::run_as(cfg, "C01", if cfg.thorough() { 200 } else { 25 });
+    if which == Which::C01 && sub_wanted(cfg, super::REWARD_SEQ_BASE) {
+        let sub = with_offset(cfg, super::REWARD_SEQ_BASE, |c| crate::props::reward::run_as(c, "C01", if c.thorough() { 200 } else { 25 }));
         rep.ops += sub.ops;
         rep.ops_ok += sub.ops_ok;
         rep.notes.push(format!("reward sub-campaign: {} sequences, {} awards, {} validated against the Lean reward model", sub.sequences, sub.ops, sub.traces_validated));
@@ -1108,4 +1108,17 @@ pub fn run(cfg: &RunCfg, which: Which) -> Report {
         for d in sub.disagreements.into_iter() { rep.disagreements.push(d); }
     }
     rep
+}
+
+/// a C01 sub-campaign runs in a full run, or when `--only-seq` names one of its sequences
+fn sub_wanted(cfg: &RunCfg, base: u64) -> bool {
+    match cfg.only_seq { None => true, Some(k) => k >= base && k < base + 1_000_000 }
+}
+
+fn with_offset(cfg: &RunCfg, base: u64, f: impl FnOnce(&RunCfg) -> Report) -> Report {
+    let sub_cfg = RunCfg { seed: cfg.seed, tier: cfg.tier.clone(), only_seq: cfg.only_seq.map(|k| k - base), out: cfg.out.clone(), use_lean: cfg.use_lean, budget: cfg.budget };
+    super::SEQ_LABEL_OFFSET.store(base, std::sync::atomic::Ordering::Relaxed);
+    let r = f(&sub_cfg);
+    super::SEQ_LABEL_OFFSET.store(0, std::sync::atomic::Ordering::Relaxed);
+    r
 }
